@@ -33,6 +33,12 @@ CHECKS = {
  "C07": ("bounded-exhaustive enumeration of request texts (valid, every single fault, every single defect at every site, every truncation and token deletion, bad variable maps, unknown operation) x 6 layouts x 3 indents x Sort, invariant checking of every response of the real resolver",
          "Every response produced inside the bound is checked against the envelope grammar, error shape, location bounds, line-of-token for errors addressing a rendered selection, rejected => no data, and an encoding/json round trip in every indent mode.",
          "encoding/json trusted; the line demand only applies where the harness can map the error path to a selection it rendered; finding C07-F1 matches only the pinned union-binding message.", "5.7"),
+ "C04": ("complete enumeration of the product (9 base input types x 7 wrapper shapes x client-value menu x 7 delivery modes x RS/AS/FS) on the real resolver against an independent one-directional input-coercion reference",
+         "The whole finite product is enumerated: if the resolver ran, the delivered argument must conform to the declared type and denote the client's value; a clearly uncoercible value must give an error and no invocation.",
+         "Over-rejection is allowed; explicit null for a defaulted input field / variable is not demanded either way; Relaxed=false.", "5.4"),
+ "C05": ("complete enumeration of the product (9 leaf types x 5 wrappers x Go return-value menu incl. every list carrier x 3 positions x RS/AS/FS) on the real resolver; schema-directed walk of the encoding/json-decoded response",
+         "Every cell of the product is executed; each leaf must have the JSON shape of its declared type or be null, and a clearly unrepresentable value must be null with an error at that path.",
+         "encoding/json trusted; findings C05-F1 (enum members) and C05-F2 (fraction truncation) are pinned by the suite and matched by narrow predicates.", "5.5"),
 }
 
 NOT_YET = {}
